@@ -37,6 +37,9 @@ Dom == [
   c_nested_enum |-> Comment, c_value |-> Comment, c_oneof |-> Comment, c_svc |-> Comment, c_rpc |-> Comment,
   \* imports of weather.proto
   import_unused |-> YesNo, import_public |-> YesNo, cycle |-> YesNo,
+  \* the value java_multiple_files has in weather.proto (it is set either way; "same" / "different" / "absent" of the
+  \* second file are relative to it: an explicit false next to an unset option differs as much as true does)
+  weather_jmf |-> <<"true", "false">>,
   \* the second file of the package: acme/weather/v1/types.proto
   types_loc |-> <<"acme/weather/v1/types.proto", "acme/weather/types.proto">>,
   types_pkg |-> <<"acme.weather.v1", "acme.climate.v1">>,
@@ -46,7 +49,7 @@ Dom == [
   types_swift_prefix |-> <<"same", "different", "absent">>,
   \* acme/misc/v1/misc.proto
   misc_syntax |-> <<"proto3", "absent">>,
-  misc_pkg |-> <<"acme.misc.v1", "", "acme.misc", "acme.Misc.v1", "acme.other.v1", "acme.misc.v1gamma", "acme.misc.v0">>,
+  misc_pkg |-> <<"acme.misc.v1", "", "acme.misc", "acme.Misc.v1", "acme.other.v1", "acme.misc.v1gamma", "acme.misc.v0", "acme.misc.v1p1", "acme.misc.v1p1beta">>,
   misc_filename |-> <<"misc.proto", "MiscFile.proto">>,
   \* acme/legacy/v1/legacy.proto (proto2)
   legacy_required |-> YesNo, legacy_ext_name |-> <<"ext_name", "ExtName">>, legacy_first_value |-> <<"zero", "one">>,
@@ -172,8 +175,10 @@ SlotCons(s, w) ==
            [] v = "acme.misc" -> {A("PACKAGE_VERSION_SUFFIX", "misc#package@decl"), A("PACKAGE_DIRECTORY_MATCH", "misc#package@decl")}
            [] v = "acme.Misc.v1" -> {A("PACKAGE_LOWER_SNAKE_CASE", "misc#package@decl"), A("PACKAGE_DIRECTORY_MATCH", "misc#package@decl")}
            [] v = "acme.other.v1" -> {A("PACKAGE_DIRECTORY_MATCH", "misc#package@decl")}
-           \* v<major>(alpha|beta)<minor optional> and v<major>test... are versions; v1gamma and v0 are not
-           [] v \in {"acme.misc.v1gamma", "acme.misc.v0"} -> {A("PACKAGE_VERSION_SUFFIX", "misc#package@decl"), A("PACKAGE_DIRECTORY_MATCH", "misc#package@decl")}
+           \* v<major>(alpha|beta)<minor optional> and v<major>test... are versions; v1gamma and v0 are not; a patch
+           \* number (v1p1) only exists on an alpha / beta version (v1p1beta is one, v1p1 is not)
+           [] v \in {"acme.misc.v1gamma", "acme.misc.v0", "acme.misc.v1p1"} -> {A("PACKAGE_VERSION_SUFFIX", "misc#package@decl"), A("PACKAGE_DIRECTORY_MATCH", "misc#package@decl")}
+           [] v = "acme.misc.v1p1beta" -> {A("PACKAGE_DIRECTORY_MATCH", "misc#package@decl")}
            [] OTHER -> {}
     [] s = "misc_filename" -> IF v # "misc.proto" THEN {A("FILE_LOWER_SNAKE_CASE", "misc#file")} ELSE {}
     [] s = "legacy_required" -> IF v = "yes" THEN {A("FIELD_NOT_REQUIRED", "legacy#required@name")} ELSE {}
